@@ -332,6 +332,7 @@ namespace pika {
         wait_until(Lock& lock, stop_token stoken, pika::chrono::steady_time_point const& abs_time,
             Predicate pred, error_code& ec = throws)
         {
+            PIKA_VERIF_POST("cva.stop0", this, stoken.stop_requested() ? 1 : 0, 1);
             if (stoken.stop_requested()) { return pred(); }
 
             auto data = data_;    // keep data alive
@@ -349,6 +350,7 @@ namespace pika {
                     [[maybe_unused]] util::ignore_all_while_checking ignore_lock;
 
                     std::unique_lock<mutex_type> l(data->mtx_);
+                    PIKA_VERIF_POST("cva.stop1", this, stoken.stop_requested() ? 1 : 0, 1);
                     if (stoken.stop_requested())
                     {
                         // pred() has already evaluated to false since we last
@@ -370,6 +372,8 @@ namespace pika {
                     should_stop =
                         (reason == pika::threads::detail::thread_restart_state::timeout) ||
                         stoken.stop_requested();
+                    PIKA_VERIF_POST("cva.stop2", this, should_stop ? 1 : 0,
+                        reason == pika::threads::detail::thread_restart_state::timeout ? 1 : 0);
                 }
 
                 if (should_stop) { return pred(); }
